@@ -87,6 +87,20 @@ class SymCtx:
     def bytes(self, name, n):
         return self.e.fresh_bytes(name, n)
 
+    def blob(self, name, lo, hi):
+        """opaque byte string whose length is a solver variable in [lo, hi]; -> (blob, length)"""
+        n = self.e.fresh_int(name + "_len", lo, hi)
+        if isinstance(n, V.SymInt):
+            # witnesses (path models, counterexamples) with a small length when the path allows one: the native runs materialise the bytes
+            self.e.at_path_end.append(lambda eng, n=n: eng.prefer((n <= 4096).t if isinstance(n <= 4096, V.SymBool) else None))
+        return V.SymBlob.opaque(name, n), n
+
+    def blob_of_len(self, name, n):
+        """opaque byte string of the given (possibly symbolic) length"""
+        if isinstance(n, int):
+            return self.bytes(name, n)
+        return V.SymBlob.opaque(name, n)
+
     def assume(self, cond):
         self.e.assume(cond)
 
@@ -154,6 +168,19 @@ class NativeCtx:
 
     def bytes(self, name, n):
         return bytes(self.int(f"{name}[{i}]", 0, 255) for i in range(n))
+
+    def blob(self, name, lo, hi):
+        n = self.int(name + "_len", lo, hi)
+        return self.blob_of_len(name, n), n
+
+    def blob_of_len(self, name, n):
+        if n > 1 << 22:
+            raise NativeAssumeFailed(f"a byte string of {n} bytes is not materialised natively")
+        out, i = b"", 0
+        while len(out) < n:
+            out += hashlib.sha256(f"{name}/{i}".encode()).digest()
+            i += 1
+        return out[:n]
 
     def assume(self, cond):
         if not cond:
